@@ -465,4 +465,625 @@ Lemma cnt_t : cnt t = Z.of_nat (length (filter f s)).
 Proof. apply cnt_map_ind. Qed.
 
 End Plain.
+(* ===================================================================== *)
+(* the body for letters: a lane matches when (lane OR 0x20) = cc           *)
+(* ===================================================================== *)
+Section Case.
+Variable cc : Z.
+Notation f := (fun b => cc =? Z.lor 32 b).
+Notation t := (map (ind f) s).
+
+Lemma t_length_c : length t = length s.
+Proof. apply map_length. Qed.
+
+Lemma chunkT_c w off : (off + w <= length s)%nat ->
+  let data := firstn w (skipn off s) in
+  load A s junk w (A + Z.of_nat off) = Some data /\ length data = w /\ map (ind f) data = firstn w (skipn off t).
+Proof.
+  intros H data. split; [|split].
+  - rewrite (load_bytes A s junk w) by (apply chunk_readable; unfold X86.len; lia).
+    rewrite (bytes_at_inside A s junk) by (unfold X86.len; lia). unfold data. do 3 f_equal. lia.
+  - unfold data. rewrite firstn_length, skipn_length. lia.
+  - unfold data. rewrite skipn_map, firstn_map. reflexivity.
+Qed.
+
+(* ---------- lengths below 16 ---------- *)
+Lemma small_path_c ax cx dx di r9 r10 r11 r12 r13 r14 r15 x0 x1 x2 x3 x4 x5 x6 x7 :
+  len < 16 -> vlow 16 x0 = repeat cc 16 -> vlow 16 x2 = repeat 32 16 ->
+  exists fuel, run fuel 45 (mk ax len cx dx A di slot r9 r10 r11 r12 r13 r14 r15 x0 x1 x2 x3 x4 x5 x6 x7 (cmp_flags len 16 signed64) None)
+               = Done (Some (cnt t)).
+Proof.
+  intros Hl Hx0 Hx2m. pose proof len_nonneg as H0. unfold mk. unfold two63 in Hlen.
+  destruct (Z.eq_dec len 0) as [E0|N0].
+  { (* empty *)
+    eexists. ystep. rewrite holds_cmp_LT by (unfold two63; lia). replace (len <? 16) with true by lia. cbv iota.
+    ystep. ystep. cbn [holds zf logic_flags zflag]. rewrite Z.land_diag. replace (len =? 0) with true by lia. cbv iota.
+    ystep. replace (0 + slot + 0 =? slot) with true by lia. cbv iota. ystep.
+    rewrite (nil_of_len0 E0). reflexivity. }
+  set (n := length s). assert (Hn : len = Z.of_nat n) by reflexivity.
+  assert (Lt : length t = n) by apply t_length_c.
+  pose proof (movmsk_range t) as Rs. rewrite Lt in Rs.
+  assert (P16 : 2 ^ Z.of_nat n <= 2 ^ 15) by (apply Z.pow_le_mono_r; lia). change (2 ^ 15) with 32768 in P16.
+  pose proof (cnt_range t) as Rc. rewrite Lt in Rc.
+  assert (Pl : 1 <= 2 ^ len <= 32768) by (rewrite Hn; split; [change 1 with (2 ^ 0); apply Z.pow_le_mono_r; lia|exact P16]).
+  destruct (Z_lt_le_dec ((16 + A + 0) mod 4096) 16) as [Pg|Pg].
+  - (* the 16-byte load at s would cross into the next page: load the 16 bytes that END at the end of s *)
+    assert (Hrd : forall k, (k < 16)%nat -> readable A s (-16 + A + len * 1 + Z.of_nat k) = true).
+    { intros k Hk. destruct (Z_lt_le_dec (-16 + A + len * 1 + Z.of_nat k) A) as [Lo|Hi].
+      - apply (readable_first_page A s junk); lia.
+      - apply (readable_inside A s junk); lia. }
+    set (J := bytes_at A s junk (A - Z.of_nat (16 - n)) (16 - n)).
+    assert (Eb : bytes_at A s junk (-16 + A + len * 1) 16 = J ++ s).
+    { replace (-16 + A + len * 1) with (A - Z.of_nat (16 - n)) by lia.
+      pose proof (bytes_at_app A s junk (A - Z.of_nat (16 - n)) (16 - n) n) as B.
+      replace ((16 - n) + n)%nat with 16%nat in B by lia. rewrite B.
+      replace (A - Z.of_nat (16 - n) + Z.of_nat (16 - n)) with A by lia. unfold J. f_equal. apply bytes_at_whole. }
+    assert (LJ : length (J ++ s) = 16%nat) by (rewrite app_length; unfold J; rewrite bytes_at_length; lia).
+    set (tJ := map (ind f) J).
+    assert (LJ0 : length tJ = (16 - n)%nat) by (unfold tJ; rewrite map_length; unfold J; apply bytes_at_length).
+    assert (Lz : (length (repeat 0%Z (length tJ) ++ t) <= 64)%nat) by (rewrite app_length, repeat_length, LJ0, Lt; lia).
+    assert (Rz : 0 <= movmsk (repeat 0 (length tJ) ++ t) < 65536).
+    { pose proof (movmsk_range (repeat 0 (length tJ) ++ t)) as R. rewrite app_length, repeat_length in R.
+      replace (Z.of_nat (length tJ + length t)) with 16 in R by lia. exact R. }
+    eexists. ystep. rewrite holds_cmp_LT by (unfold two63; lia). replace (len <? 16) with true by lia. cbv iota.
+    ystep. ystep. cbn [holds zf logic_flags zflag]. rewrite Z.land_diag. replace (len =? 0) with false by lia. cbv iota.
+    ystep. rewrite in64_true by (unfold two64; lia). cbv iota.
+    ystep. ystep. cbn [holds zf logic_flags zflag]. rewrite testw_page by lia. replace ((16 + A + 0) mod 4096 <? 16) with true by lia. cbv iota.
+    ystep. ystep. change (16 mod two64) with 16. rewrite in64_true by (unfold two64; lia). cbv iota.
+    ystep. ystep. ystep. rewrite (mask16 len) by lia.
+    ystep. rewrite (load_bytes A s junk 16 _ Hrd), Eb. cbv iota.
+    ystep. ystep. ystep. rewrite (cmp_or_low16 cc _ _ _ _ _ Hx0 Hx2m LJ), map_app. fold tJ.
+    ystep. replace (2 ^ len) with (2 ^ Z.of_nat (length t)) by (rewrite Lt; f_equal; lia).
+    replace (2 ^ (16 - len)) with (2 ^ Z.of_nat (length tJ)) by (rewrite LJ0; f_equal; lia).
+    rewrite (land_high_mask tJ t).
+    ystep. unfold two32. rewrite (Z.mod_small (movmsk (repeat 0 (length tJ) ++ t))) by lia.
+    rewrite (popcnt_movmsk _ Lz), cnt_app, cnt_repeat0.
+    ystep. replace (0 + slot + 0 =? slot) with true by lia. cbv iota.
+    ystep. f_equal. f_equal. apply signed64_small'. unfold two63. lia.
+  - (* load 16 bytes at s: s followed by 16 - len bytes of the same page *)
+    assert (Hrd : forall k, (k < 16)%nat -> readable A s (0 + A + 0 + Z.of_nat k) = true).
+    { intros k Hk. apply (readable_first_page A s junk); lia. }
+    set (J := bytes_at A s junk (A + Z.of_nat n) (16 - n)).
+    assert (Eb : bytes_at A s junk (0 + A + 0) 16 = s ++ J).
+    { replace (0 + A + 0) with A by lia. replace 16%nat with (n + (16 - n))%nat by lia.
+      rewrite bytes_at_app. unfold n at 1. rewrite bytes_at_whole. reflexivity. }
+    assert (LJ : length (s ++ J) = 16%nat) by (rewrite app_length; unfold J; rewrite bytes_at_length; lia).
+    set (tJ := map (ind f) J).
+    assert (Lt64 : (length t <= 64)%nat) by lia.
+    eexists. ystep. rewrite holds_cmp_LT by (unfold two63; lia). replace (len <? 16) with true by lia. cbv iota.
+    ystep. ystep. cbn [holds zf logic_flags zflag]. rewrite Z.land_diag. replace (len =? 0) with false by lia. cbv iota.
+    ystep. rewrite in64_true by (unfold two64; lia). cbv iota.
+    ystep. ystep. cbn [holds zf logic_flags zflag]. rewrite testw_page by lia. replace ((16 + A + 0) mod 4096 <? 16) with false by lia. cbv iota.
+    ystep. ystep. ystep.
+    match goal with |- context [2 ^ (?e mod 64)] => replace (e mod 64) with (len mod 64) by lia end.
+    ystep. rewrite (mask_low len) by lia. rewrite in64_true by (unfold two64; lia). cbv iota.
+    ystep. rewrite (load_bytes A s junk 16 _ Hrd), Eb. cbv iota.
+    ystep. ystep. ystep. rewrite (cmp_or_low16 cc _ _ _ _ _ Hx0 Hx2m LJ), map_app. fold tJ.
+    ystep. replace (2 ^ len) with (2 ^ Z.of_nat (length t)) by (rewrite Lt; f_equal; lia). rewrite (land_low_mask t tJ).
+    ystep. unfold two32. rewrite (Z.mod_small (movmsk t)) by lia. rewrite (popcnt_movmsk _ Lt64).
+    ystep. replace (0 + slot + 0 =? slot) with true by lia. cbv iota.
+    ystep. f_equal. f_equal. apply signed64_small'. unfold two63. lia.
+  Unshelve. all: exact O.
+Qed.
+
+(* ---------- lengths from 16: the SSE loop ---------- *)
+
+(* after the loop: the last len mod 16 bytes, taken from the 16 bytes that end at the end of s *)
+Lemma sse_tail_c (k : nat) ax cx dx di r9 r10 r11 r12 r13 r14 r15 x0 x1 x2 x3 x4 x5 x6 x7 fl0 :
+  16 <= len -> ax = A + len - 16 -> 16 * Z.of_nat k <= len < 16 * Z.of_nat k + 16 ->
+  r12 = cnt (firstn (16 * k) t) -> vlow 16 x0 = repeat cc 16 -> vlow 16 x2 = repeat 32 16 ->
+  exists fuel, run fuel 62 (mk ax len cx dx A di slot r9 r10 r11 r12 r13 r14 r15 x0 x1 x2 x3 x4 x5 x6 x7 fl0 None) = Done (Some (cnt t)).
+Proof.
+  intros Hl Eax Hk Er12 Hx0 Hx2m. pose proof len_nonneg as H0. unfold two63 in Hlen.
+  assert (Hn : len = Z.of_nat (length s)) by reflexivity. pose proof t_length_c as Lt.
+  pose proof (cnt_range t) as Rc. rewrite Lt in Rc.
+  pose proof (cnt_range (firstn (16 * k) t)) as Rck. rewrite firstn_length, Lt in Rck.
+  set (r := len mod 16). assert (Hr : r = len - 16 * Z.of_nat k) by (unfold r; lia).
+  destruct (Z.eq_dec r 0) as [R0|Rn0].
+  - eexists. unfold mk. ystep. rewrite land15 by lia. fold r.
+    ystep. cbn [holds zf logic_flags zflag]. replace (r =? 0) with true by lia. cbv iota.
+    ystep. replace (0 + slot + 0 =? slot) with true by lia. cbv iota.
+    ystep. f_equal. f_equal. rewrite signed64_small' by (unfold two63; lia). rewrite Er12. f_equal.
+    apply firstn_all2. lia.
+  - set (r' := Z.to_nat r). set (off := (length s - 16)%nat). set (K := (16 * k)%nat).
+    destruct (chunkT_c 16 off) as (Hld & Hlc & Hm); [unfold off; lia|].
+    replace (A + Z.of_nat off) with ax in Hld by (unfold off; lia).
+    set (data := firstn 16 (skipn off s)) in *.
+    assert (Ls : length (skipn off t) = 16%nat) by (rewrite skipn_length, Lt; unfold off; lia).
+    rewrite (firstn_all2 (n := 16) (skipn off t)) in Hm by lia.
+    set (J := firstn (16 - r') (skipn off t)). set (T := skipn K t).
+    assert (Esp : skipn off t = J ++ T).
+    { unfold J, T. rewrite <- (firstn_skipn (16 - r') (skipn off t)) at 1. f_equal.
+      rewrite skipn_skipn'. f_equal. unfold off, K, r'. lia. }
+    assert (LJ : length J = (16 - r')%nat) by (unfold J; rewrite firstn_length, Ls; unfold r'; lia).
+    assert (LT : length T = r') by (unfold T; rewrite skipn_length, Lt; unfold K, r'; lia).
+    assert (Lz : (length (repeat 0%Z (length J) ++ T) <= 64)%nat) by (rewrite app_length, repeat_length, LJ, LT; lia).
+    assert (Rz : 0 <= movmsk (repeat 0 (length J) ++ T) < 65536).
+    { pose proof (movmsk_range (repeat 0 (length J) ++ T)) as R. rewrite app_length, repeat_length in R.
+      replace (Z.of_nat (length J + length T)) with 16 in R by (rewrite LJ, LT; unfold r'; lia). exact R. }
+    pose proof (cnt_range T) as RcT. rewrite LT in RcT.
+    eexists. unfold mk. ystep. rewrite land15 by lia. fold r.
+    ystep. cbn [holds zf logic_flags zflag]. replace (r =? 0) with false by lia. cbv iota.
+    ystep. ystep. change (16 mod two64) with 16. rewrite in64_true by (unfold two64; lia). cbv iota.
+    ystep. ystep. ystep. rewrite (mask16 r) by lia.
+    ystep. replace (0 + ax + 0) with ax by lia. rewrite Hld. cbv iota.
+    ystep. ystep. ystep. rewrite (cmp_or_low16 cc _ _ _ _ _ Hx0 Hx2m Hlc), Hm, Esp.
+    ystep. replace (2 ^ r) with (2 ^ Z.of_nat (length T)) by (rewrite LT; f_equal; unfold r'; lia).
+    replace (2 ^ (16 - r)) with (2 ^ Z.of_nat (length J)) by (rewrite LJ; f_equal; unfold r'; lia).
+    rewrite (land_high_mask J T).
+    ystep. unfold two32. rewrite (Z.mod_small (movmsk (repeat 0 (length J) ++ T))) by lia.
+    rewrite (popcnt_movmsk _ Lz), cnt_app, cnt_repeat0.
+    ystep. rewrite in64_true by (unfold two64; unfold r' in RcT; lia). cbv iota.
+    ystep. replace (0 + slot + 0 =? slot) with true by lia. cbv iota.
+    ystep. f_equal. f_equal. rewrite signed64_small' by (unfold two63; unfold r' in RcT; lia).
+    rewrite Er12. fold K. rewrite (cnt_split K t). fold T. lia.
+  Unshelve. all: exact O.
+Qed.
+
+(* the loop: invariant "R12 counts the first 16k lanes of t", measure = whole chunks left *)
+Lemma sse_loop_c (m : nat) : forall (k : nat) ax cx dx di r9 r10 r11 r12 r13 r14 r15 x0 x1 x2 x3 x4 x5 x6 x7 fl0,
+  16 <= len -> ax = A + len - 16 -> di = A + 16 * Z.of_nat k -> 16 * Z.of_nat k <= len ->
+  r12 = cnt (firstn (16 * k) t) -> len - 16 * Z.of_nat k < 16 * Z.of_nat m + 16 -> vlow 16 x0 = repeat cc 16 -> vlow 16 x2 = repeat 32 16 ->
+  exists fuel, run fuel 60 (mk ax len cx dx A di slot r9 r10 r11 r12 r13 r14 r15 x0 x1 x2 x3 x4 x5 x6 x7 fl0 None) = Done (Some (cnt t)).
+Proof.
+  induction m as [|m IH]; intros k ax cx dx di r9 r10 r11 r12 r13 r14 r15 x0 x1 x2 x3 x4 x5 x6 x7 fl0 Hl Eax Edi Hk Er12 Hm Hx0 Hx2m;
+    pose proof len_nonneg as H0; unfold two63 in Hlen; assert (Hn : len = Z.of_nat (length s)) by reflexivity; pose proof t_length_c as Lt.
+  - destruct (sse_tail_c k ax cx dx di r9 r10 r11 r12 r13 r14 r15 x0 x1 x2 x3 x4 x5 x6 x7 (cmp_flags di ax signed64) Hl Eax) as [fu Hfu]; [lia|exact Er12|exact Hx0|exact Hx2m|].
+    eexists. unfold mk. ystep. ystep. rewrite holds_cmp_BE. replace (di <=? ax) with false by lia. cbv iota.
+    exact Hfu.
+  - destruct (Z_le_gt_dec di ax) as [Hle|Hgt].
+    + destruct (chunkT_c 16 (16 * k)) as (Hld & Hlc & Hmm); [lia|].
+      replace (A + Z.of_nat (16 * k)) with di in Hld by lia.
+      set (data := firstn 16 (skipn (16 * k) s)) in *.
+      assert (Lm : length (map (ind f) data) = 16%nat) by (rewrite map_length; exact Hlc).
+      assert (Lm64 : (length (map (ind f) data) <= 64)%nat) by lia.
+      pose proof (movmsk_range (map (ind f) data)) as Rm. rewrite Lm in Rm. change (2 ^ Z.of_nat 16) with 65536 in Rm.
+      pose proof (cnt_range (map (ind f) data)) as Rcd. rewrite Lm in Rcd.
+      pose proof (cnt_range (firstn (16 * k) t)) as Rck. rewrite firstn_length, Lt in Rck.
+      assert (Enext : r12 + cnt (map (ind f) data) = cnt (firstn (16 * S k) t)).
+      { replace (16 * S k)%nat with (16 * k + 16)%nat by lia. rewrite firstn_add, cnt_app, <- Hmm, Er12. reflexivity. }
+      destruct (IH (S k) ax cx (cnt (map (ind f) data)) (di + 16) r9 r10 r11 (r12 + cnt (map (ind f) data)) r13 r14 r15 x0
+                  (vput 16 (map2 (fun x y => if x =? y then 255 else 0) x0 (vput 16 (map2 Z.lor x2 (vput 16 data x1)) (vput 16 data x1))) (vput 16 (map2 Z.lor x2 (vput 16 data x1)) (vput 16 data x1))) x2 x3 x4 x5 x6 x7
+                  noflags Hl Eax) as [fu Hfu]; try lia; [exact Hx0|exact Hx2m|].
+      eexists. unfold mk. ystep. ystep. rewrite holds_cmp_BE. replace (di <=? ax) with true by lia. cbv iota.
+      ystep. replace (0 + di + 0) with di by lia. rewrite Hld. cbv iota.
+      ystep. ystep. ystep. rewrite (cmp_or_low16 cc _ _ _ _ _ Hx0 Hx2m Hlc).
+      ystep. unfold two32. rewrite (Z.mod_small (movmsk (map (ind f) data))) by lia. rewrite (popcnt_movmsk _ Lm64).
+      ystep. rewrite in64_true by (unfold two64; lia). cbv iota.
+      ystep. change (16 mod two64) with 16. rewrite in64_true by (unfold two64; lia). cbv iota.
+      unfold mk in Hfu. exact Hfu.
+    + destruct (sse_tail_c k ax cx dx di r9 r10 r11 r12 r13 r14 r15 x0 x1 x2 x3 x4 x5 x6 x7 (cmp_flags di ax signed64) Hl Eax) as [fu Hfu]; [lia|exact Er12|exact Hx0|exact Hx2m|].
+      eexists. unfold mk. ystep. ystep. rewrite holds_cmp_BE. replace (di <=? ax) with false by lia. cbv iota.
+      exact Hfu.
+  Unshelve. all: exact O.
+Qed.
+
+(* from the dispatch: lengths 16..64, and every length from 16 when the CPU has no AVX2 *)
+Lemma sse_path_c ax cx dx di r9 r10 r11 r12 r13 r14 r15 x0 x1 x2 x3 x4 x5 x6 x7 :
+  16 <= len -> (len <= 64 \/ avx2 = false) -> vlow 16 x0 = repeat cc 16 -> vlow 16 x2 = repeat 32 16 ->
+  exists fuel, run fuel 45 (mk ax len cx dx A di slot r9 r10 r11 r12 r13 r14 r15 x0 x1 x2 x3 x4 x5 x6 x7 (cmp_flags len 16 signed64) None)
+               = Done (Some (cnt t)).
+Proof.
+  intros Hl Hor Hx0 Hx2m. pose proof len_nonneg as H0. unfold two63 in Hlen.
+  destruct (Z_le_gt_dec len 64) as [H64|H64].
+  - destruct (sse_loop_c (Z.to_nat len) 0 (-16 + A + len * 1) cx dx A r9 r10 r11 (0 mod two64) r13 r14 r15 x0 x1 x2 x3 x4 x5 x6 x7
+                (cmp_flags len (64 mod two64) signed64) Hl) as [fu Hfu]; try lia; [reflexivity|exact Hx0|exact Hx2m|].
+    eexists. unfold mk.
+    ystep. rewrite holds_cmp_LT by (unfold two63; lia). replace (len <? 16) with false by lia. cbv iota.
+    ystep. ystep. ystep. ystep. rewrite holds_cmp_A. change (64 mod two64) with 64. replace (64 <? len) with false by lia. cbv iota.
+    ystep. rewrite in64_true by (unfold two64; lia). cbv iota.
+    ystep. exact Hfu.
+  - destruct Hor as [Hor|Hor]; [lia|].
+    destruct (sse_loop_c (Z.to_nat len) 0 (-16 + A + len * 1) cx dx A r9 r10 r11 (0 mod two64) r13 r14 r15 x0 x1 x2 x3 x4 x5 x6 x7
+                (cmp_flags 0 1 (fun v => v)) Hl) as [fu Hfu]; try lia; [reflexivity|exact Hx0|exact Hx2m|].
+    eexists. unfold mk.
+    ystep. rewrite holds_cmp_LT by (unfold two63; lia). replace (len <? 16) with false by lia. cbv iota.
+    ystep. ystep. ystep. ystep. rewrite holds_cmp_A. change (64 mod two64) with 64. replace (64 <? len) with true by lia. cbv iota.
+    ystep. replace (if avx2 then 1 else 0) with 0 by (rewrite Hor; reflexivity). ystep. rewrite holds_cmp_NE. change (negb (0 =? 1)) with true. cbv iota.
+    ystep. rewrite in64_true by (unfold two64; lia). cbv iota.
+    ystep. exact Hfu.
+  Unshelve. all: exact O.
+Qed.
+
+(* ---------- lengths from 64 with AVX2 ---------- *)
+
+(* two adjacent 32-byte loads *)
+Lemma chunk64_c off : (off + 64 <= length s)%nat ->
+  let d1 := firstn 32 (skipn off s) in let d2 := firstn 32 (skipn (off + 32) s) in
+  load A s junk 32 (A + Z.of_nat off) = Some d1 /\ load A s junk 32 (A + Z.of_nat (off + 32)) = Some d2 /\
+  length d1 = 32%nat /\ length d2 = 32%nat /\ map (ind f) d1 ++ map (ind f) d2 = firstn 64 (skipn off t).
+Proof.
+  intros H d1 d2.
+  destruct (chunkT_c 32 off) as (A1 & B1 & C1); [lia|]. destruct (chunkT_c 32 (off + 32)) as (A2 & B2 & C2); [lia|].
+  repeat split; try assumption. fold d1 in C1. fold d2 in C2. rewrite C1, C2.
+  change 64%nat with (32 + 32)%nat. rewrite firstn_add. f_equal. rewrite skipn_skipn'. f_equal. f_equal. lia.
+Qed.
+
+Ltac avx2_chunk_c di off d1 d2 x2 x3 x4 x5 Hld1 Hld2 L1 L2 Hx2 Hx3 Hx4 Hx5 Lm1 Lm2 :=
+  ystep; replace (0 + di + 0) with di by lia; rewrite Hld1; cbv iota; rewrite (vput_full 32 d1 x2 L1 Hx2);
+  ystep; replace (32 + di + 0) with (A + Z.of_nat (off + 32)) by lia; rewrite Hld2; cbv iota; rewrite (vput_full 32 d2 x4 L2 Hx4);
+  ystep; rewrite (or32 d1 d1 L1) by lia;
+  ystep; rewrite (or32 d2 d2 L2) by lia;
+  ystep; rewrite (cmp_or32 cc d1 x3 L1 Hx3);
+  ystep; rewrite (cmp_or32 cc d2 x5 L2 Hx5);
+  ystep; rewrite (vlow_full 32 _ Lm1);
+  ystep; rewrite (vlow_full 32 _ Lm2).
+
+(* after the loop: the last len mod 64 bytes, taken from the 64 bytes that end at the end of s *)
+Lemma avx2_tail_c (k : nat) ax cx dx di r9 r10 r11 r12 r13 r14 r15 x0 x2 x3 x4 x5 x7 fl0 :
+  64 <= len -> r11 = A + len - 64 -> r13 = A + len -> di = A + 64 * Z.of_nat k -> 64 * Z.of_nat k <= len < 64 * Z.of_nat k + 64 ->
+  r12 = cnt (firstn (64 * k) t) ->
+  (length x2 <= 32)%nat -> (length x3 <= 32)%nat -> (length x4 <= 32)%nat -> (length x5 <= 32)%nat ->
+  exists fuel, run fuel 133 (mk ax len cx dx A di slot r9 r10 r11 r12 r13 r14 r15 x0 (repeat cc 32) x2 x3 x4 x5 (repeat 32 32) x7 fl0 None) = Done (Some (cnt t)).
+Proof.
+  intros Hl Er11 Er13 Edi Hk Er12 Hx2 Hx3 Hx4 Hx5. pose proof len_nonneg as H0. unfold two63 in Hlen.
+  assert (Hn : len = Z.of_nat (length s)) by reflexivity. pose proof t_length_c as Lt.
+  pose proof (cnt_range t) as Rc. rewrite Lt in Rc.
+  pose proof (cnt_range (firstn (64 * k) t)) as Rck. rewrite firstn_length, Lt in Rck.
+  set (r := len mod 64). assert (Hr : r = len - 64 * Z.of_nat k) by (unfold r; lia).
+  destruct (Z.eq_dec r 0) as [R0|Rn0].
+  - eexists. unfold mk. ystep. ystep. rewrite holds_cmp_E. replace (di =? r13) with true by lia. cbv iota.
+    ystep. ystep. replace (0 + slot + 0 =? slot) with true by lia. cbv iota.
+    ystep. f_equal. f_equal. rewrite signed64_small' by (unfold two63; lia). rewrite Er12. f_equal.
+    apply firstn_all2. lia.
+  - set (r' := Z.to_nat r). set (off := (length s - 64)%nat). set (K := (64 * k)%nat).
+    destruct (chunk64_c off) as (Hld1 & Hld2 & L1 & L2 & Hm); [unfold off; lia|].
+    replace (A + Z.of_nat off) with r11 in Hld1 by (unfold off; lia).
+    set (d1 := firstn 32 (skipn off s)) in *. set (d2 := firstn 32 (skipn (off + 32) s)) in *.
+    assert (Lm1 : length (map (ind f) d1) = 32%nat) by (rewrite map_length; exact L1).
+    assert (Lm2 : length (map (ind f) d2) = 32%nat) by (rewrite map_length; exact L2).
+    assert (Ls : length (skipn off t) = 64%nat) by (rewrite skipn_length, Lt; unfold off; lia).
+    rewrite (firstn_all2 (n := 64) (skipn off t)) in Hm by lia.
+    set (J := firstn (64 - r') (skipn off t)). set (T := skipn K t).
+    assert (Esp : skipn off t = J ++ T).
+    { unfold J, T. rewrite <- (firstn_skipn (64 - r') (skipn off t)) at 1. f_equal.
+      rewrite skipn_skipn'. f_equal. unfold off, K, r'. lia. }
+    assert (LJ : length J = (64 - r')%nat) by (unfold J; rewrite firstn_length, Ls; unfold r'; lia).
+    assert (LT : length T = r') by (unfold T; rewrite skipn_length, Lt; unfold K, r'; lia).
+    assert (Lz : (length (repeat 0%Z (length J) ++ T) <= 64)%nat) by (rewrite app_length, repeat_length, LJ, LT; lia).
+    pose proof (cnt_range T) as RcT. rewrite LT in RcT.
+    pose proof (movmsk_range (map (ind f) d2)) as Rm2. rewrite Lm2 in Rm2. change (2 ^ Z.of_nat 32) with 4294967296 in Rm2.
+    eexists. unfold mk. ystep. ystep. rewrite holds_cmp_E. replace (di =? r13) with false by lia. cbv iota.
+    ystep.
+    avx2_chunk_c r11 off d1 d2 x2 x3 x4 x5 Hld1 Hld2 L1 L2 Hx2 Hx3 Hx4 Hx5 Lm1 Lm2.
+    ystep. ystep. ystep. rewrite (lor_masks _ _ Lm1 Lm2), Hm, Esp.
+    ystep. rewrite land63 by lia. fold r.
+    ystep. ystep. change (64 mod two64) with 64. rewrite in64_true by (unfold two64; lia). cbv iota.
+    ystep. ystep. rewrite (mask64 r) by lia.
+    ystep. replace (2 ^ r) with (2 ^ Z.of_nat (length T)) by (rewrite LT; f_equal; unfold r'; lia).
+    replace (2 ^ (64 - r)) with (2 ^ Z.of_nat (length J)) by (rewrite LJ; f_equal; unfold r'; lia).
+    rewrite (land_high_mask J T).
+    ystep. rewrite (popcnt_movmsk _ Lz), cnt_app, cnt_repeat0.
+    ystep. rewrite in64_true by (unfold two64; unfold r' in RcT; lia). cbv iota.
+    ystep. replace (0 + slot + 0 =? slot) with true by lia. cbv iota.
+    ystep. f_equal. f_equal. rewrite signed64_small' by (unfold two63; unfold r' in RcT; lia).
+    rewrite Er12. fold K. rewrite (cnt_split K t). fold T. lia.
+  Unshelve. all: exact O.
+Qed.
+
+(* the loop (entered with at least one whole 64-byte block ahead): R12 counts the first 64k lanes of t *)
+Lemma avx2_loop_c (m : nat) : forall (k : nat) ax cx dx di r9 r10 r11 r12 r13 r14 r15 x0 x2 x3 x4 x5 x7 fl0,
+  64 <= len -> r11 = A + len - 64 -> r13 = A + len -> di = A + 64 * Z.of_nat k -> 64 * Z.of_nat k + 64 <= len ->
+  r12 = cnt (firstn (64 * k) t) -> len - 64 * Z.of_nat k - 128 < 64 * Z.of_nat m ->
+  (length x2 <= 32)%nat -> (length x3 <= 32)%nat -> (length x4 <= 32)%nat -> (length x5 <= 32)%nat ->
+  exists fuel, run fuel 118 (mk ax len cx dx A di slot r9 r10 r11 r12 r13 r14 r15 x0 (repeat cc 32) x2 x3 x4 x5 (repeat 32 32) x7 fl0 None) = Done (Some (cnt t)).
+Proof.
+  induction m as [|m IH]; intros k ax cx dx di r9 r10 r11 r12 r13 r14 r15 x0 x2 x3 x4 x5 x7 fl0 Hl Er11 Er13 Edi Hk Er12 Hm Hx2 Hx3 Hx4 Hx5;
+    pose proof len_nonneg as H0; unfold two63 in Hlen; assert (Hn : len = Z.of_nat (length s)) by reflexivity; pose proof t_length_c as Lt;
+    (destruct (chunk64_c (64 * k)) as (Hld1 & Hld2 & L1 & L2 & Hmm); [lia|]);
+    replace (A + Z.of_nat (64 * k)) with di in Hld1 by lia;
+    set (d1 := firstn 32 (skipn (64 * k) s)) in *; set (d2 := firstn 32 (skipn (64 * k + 32) s)) in *;
+    assert (Lm1 : length (map (ind f) d1) = 32%nat) by (rewrite map_length; exact L1);
+    assert (Lm2 : length (map (ind f) d2) = 32%nat) by (rewrite map_length; exact L2);
+    assert (Lm164 : (length (map (ind f) d1) <= 64)%nat) by lia; assert (Lm264 : (length (map (ind f) d2) <= 64)%nat) by lia;
+    pose proof (movmsk_range (map (ind f) d1)) as Rm1; rewrite Lm1 in Rm1; change (2 ^ Z.of_nat 32) with 4294967296 in Rm1;
+    pose proof (movmsk_range (map (ind f) d2)) as Rm2; rewrite Lm2 in Rm2; change (2 ^ Z.of_nat 32) with 4294967296 in Rm2;
+    pose proof (cnt_range (map (ind f) d1)) as Rc1; rewrite Lm1 in Rc1; pose proof (cnt_range (map (ind f) d2)) as Rc2; rewrite Lm2 in Rc2;
+    pose proof (cnt_range (firstn (64 * k) t)) as Rck; rewrite firstn_length, Lt in Rck;
+    assert (Enext : r12 + cnt (map (ind f) d1) + cnt (map (ind f) d2) = cnt (firstn (64 * S k) t))
+      by (replace (64 * S k)%nat with (64 * k + 64)%nat by lia; rewrite firstn_add, cnt_app, <- Hmm, cnt_app, Er12; lia).
+  - destruct (avx2_tail_c (S k) ax (cnt (map (ind f) d2)) (cnt (map (ind f) d1)) (di + 64) r9 r10 r11 (r12 + cnt (map (ind f) d1) + cnt (map (ind f) d2)) r13 r14 r15
+                x0 (map (Z.lor 32) d1) (map (ind f) d1) (map (Z.lor 32) d2) (map (ind f) d2) x7 (cmp_flags (di + 64) r11 signed64) Hl Er11 Er13) as [fu Hfu]; try lia; try (rewrite map_length; lia).
+    eexists. unfold mk.
+    avx2_chunk_c di (64 * k)%nat d1 d2 x2 x3 x4 x5 Hld1 Hld2 L1 L2 Hx2 Hx3 Hx4 Hx5 Lm1 Lm2.
+    ystep. unfold two32. rewrite (Z.mod_small (movmsk (map (ind f) d1))) by lia. rewrite (popcnt_movmsk _ Lm164).
+    ystep. unfold two32. rewrite (Z.mod_small (movmsk (map (ind f) d2))) by lia. rewrite (popcnt_movmsk _ Lm264).
+    ystep. rewrite in64_true by (unfold two64; lia). cbv iota.
+    ystep. rewrite in64_true by (unfold two64; lia). cbv iota.
+    ystep. change (64 mod two64) with 64. rewrite in64_true by (unfold two64; lia). cbv iota.
+    ystep. ystep. rewrite holds_cmp_LE by (unfold two63; lia). replace (di + 64 <=? r11) with false by lia. cbv iota.
+    unfold mk in Hfu. exact Hfu.
+  - destruct (Z_le_gt_dec (di + 64) r11) as [Hle|Hgt].
+    + destruct (IH (S k) ax (cnt (map (ind f) d2)) (cnt (map (ind f) d1)) (di + 64) r9 r10 r11 (r12 + cnt (map (ind f) d1) + cnt (map (ind f) d2)) r13 r14 r15
+                  x0 (map (Z.lor 32) d1) (map (ind f) d1) (map (Z.lor 32) d2) (map (ind f) d2) x7 (cmp_flags (di + 64) r11 signed64) Hl Er11 Er13) as [fu Hfu]; try lia; try (rewrite map_length; lia).
+      eexists. unfold mk.
+      avx2_chunk_c di (64 * k)%nat d1 d2 x2 x3 x4 x5 Hld1 Hld2 L1 L2 Hx2 Hx3 Hx4 Hx5 Lm1 Lm2.
+      ystep. unfold two32. rewrite (Z.mod_small (movmsk (map (ind f) d1))) by lia. rewrite (popcnt_movmsk _ Lm164).
+      ystep. unfold two32. rewrite (Z.mod_small (movmsk (map (ind f) d2))) by lia. rewrite (popcnt_movmsk _ Lm264).
+      ystep. rewrite in64_true by (unfold two64; lia). cbv iota.
+      ystep. rewrite in64_true by (unfold two64; lia). cbv iota.
+      ystep. change (64 mod two64) with 64. rewrite in64_true by (unfold two64; lia). cbv iota.
+      ystep. ystep. rewrite holds_cmp_LE by (unfold two63; lia). replace (di + 64 <=? r11) with true by lia. cbv iota.
+      unfold mk in Hfu. exact Hfu.
+    + destruct (avx2_tail_c (S k) ax (cnt (map (ind f) d2)) (cnt (map (ind f) d1)) (di + 64) r9 r10 r11 (r12 + cnt (map (ind f) d1) + cnt (map (ind f) d2)) r13 r14 r15
+                  x0 (map (Z.lor 32) d1) (map (ind f) d1) (map (Z.lor 32) d2) (map (ind f) d2) x7 (cmp_flags (di + 64) r11 signed64) Hl Er11 Er13) as [fu Hfu]; try lia; try (rewrite map_length; lia).
+      eexists. unfold mk.
+      avx2_chunk_c di (64 * k)%nat d1 d2 x2 x3 x4 x5 Hld1 Hld2 L1 L2 Hx2 Hx3 Hx4 Hx5 Lm1 Lm2.
+      ystep. unfold two32. rewrite (Z.mod_small (movmsk (map (ind f) d1))) by lia. rewrite (popcnt_movmsk _ Lm164).
+      ystep. unfold two32. rewrite (Z.mod_small (movmsk (map (ind f) d2))) by lia. rewrite (popcnt_movmsk _ Lm264).
+      ystep. rewrite in64_true by (unfold two64; lia). cbv iota.
+      ystep. rewrite in64_true by (unfold two64; lia). cbv iota.
+      ystep. change (64 mod two64) with 64. rewrite in64_true by (unfold two64; lia). cbv iota.
+      ystep. ystep. rewrite holds_cmp_LE by (unfold two63; lia). replace (di + 64 <=? r11) with false by lia. cbv iota.
+      unfold mk in Hfu. exact Hfu.
+  Unshelve. all: exact O.
+Qed.
+
+
+(* from the dispatch: lengths above 64 on a CPU with AVX2 *)
+Lemma avx2_path_c ax cx dx di r9 r10 r11 r12 r13 r14 r15 x0 x1 x2 x3 x4 x5 x6 x7 :
+  64 < len -> avx2 = true -> (ax mod two32) mod 256 = cc -> vlow 16 x2 = repeat 32 16 ->
+  (length x2 <= 32)%nat -> (length x3 <= 32)%nat -> (length x4 <= 32)%nat -> (length x5 <= 32)%nat ->
+  exists fuel, run fuel 45 (mk ax len cx dx A di slot r9 r10 r11 r12 r13 r14 r15 x0 x1 x2 x3 x4 x5 x6 x7 (cmp_flags len 16 signed64) None)
+               = Done (Some (cnt t)).
+Proof.
+  intros Hl Hav Hax Hx2m Hx2 Hx3 Hx4 Hx5. pose proof len_nonneg as H0. unfold two63 in Hlen.
+  destruct (avx2_loop_c (Z.to_nat len) 0 ax cx dx A r9 r10 (-64 + A + len * 1) (0 mod two64) (0 + A + len * 1) r14 r15
+              (vput 16 (le_bytes4 (ax mod two32) ++ repeat 0 12) x0) x2 x3 x4 x5 x7
+              (cmp_flags 1 1 (fun v => v))) as [fu Hfu]; try lia; [reflexivity|].
+  eexists. unfold mk.
+  ystep. rewrite holds_cmp_LT by (unfold two63; lia). replace (len <? 16) with false by lia. cbv iota.
+  ystep. ystep. ystep. ystep. rewrite holds_cmp_A. change (64 mod two64) with 64. replace (64 <? len) with true by lia. cbv iota.
+  ystep. replace (if avx2 then 1 else 0) with 1 by (rewrite Hav; reflexivity).
+  ystep. rewrite holds_cmp_NE. change (negb (1 =? 1)) with false. cbv iota.
+  ystep. rewrite (hd_vlow16 x2 32 Hx2m).
+  ystep. ystep. rewrite in64_true by (unfold two64; lia). cbv iota.
+  ystep. rewrite in64_true by (unfold two64; lia). cbv iota.
+  ystep. rewrite hd_movd, Hax.
+  ystep. unfold mk in Hfu. exact Hfu.
+  Unshelve. all: exact O.
+Qed.
+
+Lemma from_dispatch_c ax cx dx di r9 r10 r11 r12 r13 r14 r15 x0 x1 x2 x3 x4 x5 x6 x7 :
+  (ax mod two32) mod 256 = cc -> vlow 16 x0 = repeat cc 16 -> vlow 16 x2 = repeat 32 16 ->
+  (length x2 <= 32)%nat -> (length x3 <= 32)%nat -> (length x4 <= 32)%nat -> (length x5 <= 32)%nat ->
+  exists fuel, run fuel 45 (mk ax len cx dx A di slot r9 r10 r11 r12 r13 r14 r15 x0 x1 x2 x3 x4 x5 x6 x7 (cmp_flags len 16 signed64) None)
+               = Done (Some (cnt t)).
+Proof.
+  intros Hax Hx0 Hx2m Hx2 Hx3 Hx4 Hx5.
+  destruct (Z_lt_le_dec len 16) as [H16|H16]; [apply small_path_c; assumption|].
+  destruct (Z_le_gt_dec len 64) as [H64|H64]; [apply sse_path_c; [exact H16|left; exact H64|exact Hx0|exact Hx2m]|].
+  destruct (bool_dec avx2 true) as [Hav|Hav].
+  - apply avx2_path_c; try assumption. lia.
+  - apply sse_path_c; [exact H16|right; apply not_true_is_false; exact Hav|exact Hx0|exact Hx2m].
+Qed.
+
+(* the body, entered with the needle (a letter, either case) in AL *)
+Theorem body_case ax cx dx di r9 r10 r11 r12 r13 r14 r15 x0 x1 x2 x3 x4 x5 x6 x7 fl0 :
+  Z.lor (ax mod 256) 32 = cc -> (length x2 <= 32)%nat -> (length x3 <= 32)%nat -> (length x4 <= 32)%nat -> (length x5 <= 32)%nat ->
+  exists fuel, run fuel 34 (mk ax len cx dx A di slot r9 r10 r11 r12 r13 r14 r15 x0 x1 x2 x3 x4 x5 x6 x7 fl0 None) = Done (Some (cnt t)).
+Proof.
+  intros Hax Hx2 Hx3 Hx4 Hx5.
+  set (ax1 := Z.lor ax (32 mod two64) mod two32).
+  assert (Hax1 : (ax1 mod two32) mod 256 = cc).
+  { unfold ax1. rewrite <- Hax. pose proof (lor_low8 ax 32) as E. change (32 mod 256) with 32 in E. rewrite <- E.
+    change (32 mod two64) with 32. generalize (Z.lor ax 32). intros v. unfold two32. lia. }
+  destruct (from_dispatch_c ax1 (32 mod two64) dx di r9 r10 r11 r12 r13 r14 r15 (bcast16 (ax1 mod two32) x0) x1
+              (bcast16q (32 mod two64) x2) x3 x4 x5 x6 x7 Hax1) as [fu Hfu];
+    [rewrite bcast16_low, Hax1; reflexivity|rewrite bcast16q_low; reflexivity|apply bcast16q_length; exact Hx2|assumption|assumption|assumption|].
+  eexists. unfold mk. ystep. fold ax1. ystep. ystep. ystep. ystep. ystep. ystep. ystep. ystep. ystep. ystep. change (16 mod two64) with 16.
+  unfold mk, bcast16, bcast16q in Hfu. exact Hfu.
+  Unshelve. all: exact O.
+Qed.
+
+Lemma cnt_t_c : cnt t = Z.of_nat (length (filter f s)).
+Proof. apply cnt_map_ind. Qed.
+
+End Case.
+
+(* ===================================================================== *)
+(* the wrappers: POPCNT test, then the letter test selects the body        *)
+(* ===================================================================== *)
+Notation c8 := (c mod 256).
+
+Lemma wrap_upper_byt r0 : popcnt = true -> (c8 - 65) mod 256 <= 25 ->
+  exists ax' cx' fl', ax' mod 256 = c8 /\ forall f,
+    run (S (S (S (S (S (S (S (S (S (S (S f))))))))))) 0 (init r0)
+    = run f 34 (mk ax' len cx' (r0 DX) A (r0 DI) slot (r0 R9) (r0 R10) (r0 R11) (r0 R12) (r0 R13) (r0 R14) (r0 R15)
+                      (repeat 0 32) (repeat 0 32) (repeat 0 32) (repeat 0 32) (repeat 0 32) (repeat 0 32) (repeat 0 32) (repeat 0 32) fl' None).
+Proof.
+  intros Hpop Hc. pose proof (Z.mod_pos_bound c 256 ltac:(lia)) as Hc8.
+  do 3 eexists. split; cycle 1.
+  { intros f. unfold init.
+    ystep. replace (if popcnt then 1 else 0) with 1 by (rewrite Hpop; reflexivity).
+    ystep. rewrite holds_cmp_E. change (1 =? 1) with true. cbv iota.
+    ystep. ystep. ystep. ystep. ystep. ystep.
+    ystep. rewrite holds_cmp_BE. match goal with |- context [if ?b then _ else _] => replace b with true by (unfold two32, two64; lia) end. cbv iota.
+    ystep. ystep.
+    unfold mk. reflexivity. }
+  cbv beta. unfold two32, two64. lia.
+Qed.
+
+Lemma wrap_lower_byt r0 : popcnt = true -> 25 < (c8 - 65) mod 256 /\ (c8 - 97) mod 256 <= 25 ->
+  exists ax' cx' fl', ax' mod 256 = c8 /\ forall f,
+    run (S (S (S (S (S (S (S (S (S (S (S (S (S (S f)))))))))))))) 0 (init r0)
+    = run f 34 (mk ax' len cx' (r0 DX) A (r0 DI) slot (r0 R9) (r0 R10) (r0 R11) (r0 R12) (r0 R13) (r0 R14) (r0 R15)
+                      (repeat 0 32) (repeat 0 32) (repeat 0 32) (repeat 0 32) (repeat 0 32) (repeat 0 32) (repeat 0 32) (repeat 0 32) fl' None).
+Proof.
+  intros Hpop Hc. pose proof (Z.mod_pos_bound c 256 ltac:(lia)) as Hc8.
+  do 3 eexists. split; cycle 1.
+  { intros f. unfold init.
+    ystep. replace (if popcnt then 1 else 0) with 1 by (rewrite Hpop; reflexivity).
+    ystep. rewrite holds_cmp_E. change (1 =? 1) with true. cbv iota.
+    ystep. ystep. ystep. ystep. ystep. ystep.
+    ystep. rewrite holds_cmp_BE. match goal with |- context [if ?b then _ else _] => replace b with false by (unfold two32, two64; lia) end. cbv iota.
+    ystep. ystep. ystep. rewrite holds_cmp_A. match goal with |- context [if ?b then _ else _] => replace b with false by (unfold two32, two64; lia) end. cbv iota.
+    ystep. ystep.
+    unfold mk. reflexivity. }
+  cbv beta. unfold two32, two64. lia.
+Qed.
+
+Lemma wrap_plain_byt r0 : popcnt = true -> 25 < (c8 - 65) mod 256 /\ 25 < (c8 - 97) mod 256 ->
+  exists ax' cx' fl', (ax' mod two32) mod 256 = c8 /\ forall f,
+    run (S (S (S (S (S (S (S (S (S (S (S (S (S (S f)))))))))))))) 0 (init r0)
+    = run f 160 (mk ax' len cx' (r0 DX) A (r0 DI) slot (r0 R9) (r0 R10) (r0 R11) (r0 R12) (r0 R13) (r0 R14) (r0 R15)
+                      (repeat 0 32) (repeat 0 32) (repeat 0 32) (repeat 0 32) (repeat 0 32) (repeat 0 32) (repeat 0 32) (repeat 0 32) fl' None).
+Proof.
+  intros Hpop Hc. pose proof (Z.mod_pos_bound c 256 ltac:(lia)) as Hc8.
+  do 3 eexists. split; cycle 1.
+  { intros f. unfold init.
+    ystep. replace (if popcnt then 1 else 0) with 1 by (rewrite Hpop; reflexivity).
+    ystep. rewrite holds_cmp_E. change (1 =? 1) with true. cbv iota.
+    ystep. ystep. ystep. ystep. ystep. ystep.
+    ystep. rewrite holds_cmp_BE. match goal with |- context [if ?b then _ else _] => replace b with false by (unfold two32, two64; lia) end. cbv iota.
+    ystep. ystep. ystep. rewrite holds_cmp_A. match goal with |- context [if ?b then _ else _] => replace b with true by (unfold two32, two64; lia) end. cbv iota.
+    ystep. ystep.
+    unfold mk. reflexivity. }
+  cbv beta. unfold two32, two64. lia.
+Qed.
+
+Lemma wrap_upper_str r0 : popcnt = true -> (c8 - 65) mod 256 <= 25 ->
+  exists ax' cx' fl', ax' mod 256 = c8 /\ forall f,
+    run (S (S (S (S (S (S (S (S (S (S (S f))))))))))) 17 (init r0)
+    = run f 34 (mk ax' len cx' (r0 DX) A (r0 DI) slot (r0 R9) (r0 R10) (r0 R11) (r0 R12) (r0 R13) (r0 R14) (r0 R15)
+                      (repeat 0 32) (repeat 0 32) (repeat 0 32) (repeat 0 32) (repeat 0 32) (repeat 0 32) (repeat 0 32) (repeat 0 32) fl' None).
+Proof.
+  intros Hpop Hc. pose proof (Z.mod_pos_bound c 256 ltac:(lia)) as Hc8.
+  do 3 eexists. split; cycle 1.
+  { intros f. unfold init.
+    ystep. replace (if popcnt then 1 else 0) with 1 by (rewrite Hpop; reflexivity).
+    ystep. rewrite holds_cmp_E. change (1 =? 1) with true. cbv iota.
+    ystep. ystep. ystep. ystep. ystep. ystep.
+    ystep. rewrite holds_cmp_BE. match goal with |- context [if ?b then _ else _] => replace b with true by (unfold two32, two64; lia) end. cbv iota.
+    ystep. ystep.
+    unfold mk. reflexivity. }
+  cbv beta. unfold two32, two64. lia.
+Qed.
+
+Lemma wrap_lower_str r0 : popcnt = true -> 25 < (c8 - 65) mod 256 /\ (c8 - 97) mod 256 <= 25 ->
+  exists ax' cx' fl', ax' mod 256 = c8 /\ forall f,
+    run (S (S (S (S (S (S (S (S (S (S (S (S (S (S f)))))))))))))) 17 (init r0)
+    = run f 34 (mk ax' len cx' (r0 DX) A (r0 DI) slot (r0 R9) (r0 R10) (r0 R11) (r0 R12) (r0 R13) (r0 R14) (r0 R15)
+                      (repeat 0 32) (repeat 0 32) (repeat 0 32) (repeat 0 32) (repeat 0 32) (repeat 0 32) (repeat 0 32) (repeat 0 32) fl' None).
+Proof.
+  intros Hpop Hc. pose proof (Z.mod_pos_bound c 256 ltac:(lia)) as Hc8.
+  do 3 eexists. split; cycle 1.
+  { intros f. unfold init.
+    ystep. replace (if popcnt then 1 else 0) with 1 by (rewrite Hpop; reflexivity).
+    ystep. rewrite holds_cmp_E. change (1 =? 1) with true. cbv iota.
+    ystep. ystep. ystep. ystep. ystep. ystep.
+    ystep. rewrite holds_cmp_BE. match goal with |- context [if ?b then _ else _] => replace b with false by (unfold two32, two64; lia) end. cbv iota.
+    ystep. ystep. ystep. rewrite holds_cmp_A. match goal with |- context [if ?b then _ else _] => replace b with false by (unfold two32, two64; lia) end. cbv iota.
+    ystep. ystep.
+    unfold mk. reflexivity. }
+  cbv beta. unfold two32, two64. lia.
+Qed.
+
+Lemma wrap_plain_str r0 : popcnt = true -> 25 < (c8 - 65) mod 256 /\ 25 < (c8 - 97) mod 256 ->
+  exists ax' cx' fl', (ax' mod two32) mod 256 = c8 /\ forall f,
+    run (S (S (S (S (S (S (S (S (S (S (S (S (S (S f)))))))))))))) 17 (init r0)
+    = run f 160 (mk ax' len cx' (r0 DX) A (r0 DI) slot (r0 R9) (r0 R10) (r0 R11) (r0 R12) (r0 R13) (r0 R14) (r0 R15)
+                      (repeat 0 32) (repeat 0 32) (repeat 0 32) (repeat 0 32) (repeat 0 32) (repeat 0 32) (repeat 0 32) (repeat 0 32) fl' None).
+Proof.
+  intros Hpop Hc. pose proof (Z.mod_pos_bound c 256 ltac:(lia)) as Hc8.
+  do 3 eexists. split; cycle 1.
+  { intros f. unfold init.
+    ystep. replace (if popcnt then 1 else 0) with 1 by (rewrite Hpop; reflexivity).
+    ystep. rewrite holds_cmp_E. change (1 =? 1) with true. cbv iota.
+    ystep. ystep. ystep. ystep. ystep. ystep.
+    ystep. rewrite holds_cmp_BE. match goal with |- context [if ?b then _ else _] => replace b with false by (unfold two32, two64; lia) end. cbv iota.
+    ystep. ystep. ystep. rewrite holds_cmp_A. match goal with |- context [if ?b then _ else _] => replace b with true by (unfold two32, two64; lia) end. cbv iota.
+    ystep. ystep.
+    unfold mk. reflexivity. }
+  cbv beta. unfold two32, two64. lia.
+Qed.
+
+Lemma count_case x : 0 <= x < 256 -> ((x - 65) mod 256 <= 25 \/ (x - 97) mod 256 <= 25) ->
+  Z.of_nat (length (filter (fun b => Z.lor x 32 =? Z.lor 32 b) s)) = k_count s x.
+Proof.
+  intros Hx Ha. unfold k_count. do 2 f_equal. apply filter_ext_wf; [exact Hwf|]. intros b Hb.
+  pose proof (chk_pairs_spec _ asm_match_chk x b Hx Hb) as C. cbv beta in C.
+  replace (((x - 65) mod 256 <=? 25) || ((x - 97) mod 256 <=? 25)) with true in C by lia. apply eqb_prop in C. exact C.
+Qed.
+
+Lemma count_plain x : 0 <= x < 256 -> (25 < (x - 65) mod 256 /\ 25 < (x - 97) mod 256) ->
+  Z.of_nat (length (filter (Z.eqb x) s)) = k_count s x.
+Proof.
+  intros Hx Ha. unfold k_count. do 2 f_equal. apply filter_ext_wf; [exact Hwf|]. intros b Hb.
+  pose proof (chk_pairs_spec _ asm_match_chk x b Hx Hb) as C. cbv beta in C.
+  replace (((x - 65) mod 256 <=? 25) || ((x - 97) mod 256 <=? 25)) with false in C by lia. apply eqb_prop in C. exact C.
+Qed.
+
+(* THE KERNEL THEOREM for Count / CountString on a CPU with POPCNT: started with arbitrary register contents, for
+   every needle byte, the run returns the scalar definition k_count (the number of bytes equal to the needle or,
+   for an ASCII letter, to its other case): at every address >= 4096 and alignment, for every content of the
+   surrounding memory, with and without AVX2; Done also says that no load left the pages of the argument, that
+   the only store was the result and that no address computation or counter wrapped. *)
+
+Theorem count_asm_byt r0 : popcnt = true ->
+  exists fuel, run fuel entry_count_go122_amd64_Count (init r0) = Done (Some (k_count s c8)).
+Proof.
+  intros Hpop. pose proof (Z.mod_pos_bound c 256 ltac:(lia)) as Hc8. unfold entry_count_go122_amd64_Count.
+  assert (L32 : (length (repeat 0 32) <= 32)%nat) by (rewrite repeat_length; lia).
+  destruct (Z_le_gt_dec ((c8 - 65) mod 256) 25) as [Hu|Hu].
+  - destruct (wrap_upper_byt r0 Hpop Hu) as (ax' & cx' & fl' & Hax & Hrun).
+    destruct (body_case (Z.lor c8 32) ax' cx' (r0 DX) (r0 DI) (r0 R9) (r0 R10) (r0 R11) (r0 R12) (r0 R13) (r0 R14) (r0 R15)
+                (repeat 0 32) (repeat 0 32) (repeat 0 32) (repeat 0 32) (repeat 0 32) (repeat 0 32) (repeat 0 32) (repeat 0 32) fl'
+                ltac:(rewrite Hax; reflexivity) L32 L32 L32 L32) as [fu Hfu].
+    eexists. rewrite Hrun. rewrite Hfu. rewrite cnt_t_c. f_equal. f_equal. apply count_case; [exact Hc8|left; exact Hu].
+  - destruct (Z_le_gt_dec ((c8 - 97) mod 256) 25) as [Hl|Hl].
+    + destruct (wrap_lower_byt r0 Hpop ltac:(lia)) as (ax' & cx' & fl' & Hax & Hrun).
+      destruct (body_case (Z.lor c8 32) ax' cx' (r0 DX) (r0 DI) (r0 R9) (r0 R10) (r0 R11) (r0 R12) (r0 R13) (r0 R14) (r0 R15)
+                  (repeat 0 32) (repeat 0 32) (repeat 0 32) (repeat 0 32) (repeat 0 32) (repeat 0 32) (repeat 0 32) (repeat 0 32) fl'
+                  ltac:(rewrite Hax; reflexivity) L32 L32 L32 L32) as [fu Hfu].
+      eexists. rewrite Hrun. rewrite Hfu. rewrite cnt_t_c. f_equal. f_equal. apply count_case; [exact Hc8|right; lia].
+    + destruct (wrap_plain_byt r0 Hpop ltac:(lia)) as (ax' & cx' & fl' & Hax & Hrun).
+      destruct (body_plain c8 ax' cx' (r0 DX) (r0 DI) (r0 R9) (r0 R10) (r0 R11) (r0 R12) (r0 R13) (r0 R14) (r0 R15)
+                  (repeat 0 32) (repeat 0 32) (repeat 0 32) (repeat 0 32) (repeat 0 32) (repeat 0 32) (repeat 0 32) (repeat 0 32) fl'
+                  Hax L32 L32 L32 L32) as [fu Hfu].
+      eexists. rewrite Hrun. rewrite Hfu. rewrite cnt_t. f_equal. f_equal. apply count_plain; [exact Hc8|lia].
+Qed.
+
+(* without POPCNT the wrapper hands over to the Go fallback after two instructions, having loaded and stored nothing *)
+Theorem count_asm_byt_nopopcnt r0 : popcnt = false -> run 3 entry_count_go122_amd64_Count (init r0) = Delegated.
+Proof.
+  intros Hpop. unfold entry_count_go122_amd64_Count, init.
+  ystep. replace (if popcnt then 1 else 0) with 0 by (rewrite Hpop; reflexivity).
+  ystep. rewrite holds_cmp_E. change (0 =? 1) with false. cbv iota.
+  ystep. reflexivity.
+Qed.
+
+Theorem count_asm_str r0 : popcnt = true ->
+  exists fuel, run fuel entry_count_go122_amd64_CountString (init r0) = Done (Some (k_count s c8)).
+Proof.
+  intros Hpop. pose proof (Z.mod_pos_bound c 256 ltac:(lia)) as Hc8. unfold entry_count_go122_amd64_CountString.
+  assert (L32 : (length (repeat 0 32) <= 32)%nat) by (rewrite repeat_length; lia).
+  destruct (Z_le_gt_dec ((c8 - 65) mod 256) 25) as [Hu|Hu].
+  - destruct (wrap_upper_str r0 Hpop Hu) as (ax' & cx' & fl' & Hax & Hrun).
+    destruct (body_case (Z.lor c8 32) ax' cx' (r0 DX) (r0 DI) (r0 R9) (r0 R10) (r0 R11) (r0 R12) (r0 R13) (r0 R14) (r0 R15)
+                (repeat 0 32) (repeat 0 32) (repeat 0 32) (repeat 0 32) (repeat 0 32) (repeat 0 32) (repeat 0 32) (repeat 0 32) fl'
+                ltac:(rewrite Hax; reflexivity) L32 L32 L32 L32) as [fu Hfu].
+    eexists. rewrite Hrun. rewrite Hfu. rewrite cnt_t_c. f_equal. f_equal. apply count_case; [exact Hc8|left; exact Hu].
+  - destruct (Z_le_gt_dec ((c8 - 97) mod 256) 25) as [Hl|Hl].
+    + destruct (wrap_lower_str r0 Hpop ltac:(lia)) as (ax' & cx' & fl' & Hax & Hrun).
+      destruct (body_case (Z.lor c8 32) ax' cx' (r0 DX) (r0 DI) (r0 R9) (r0 R10) (r0 R11) (r0 R12) (r0 R13) (r0 R14) (r0 R15)
+                  (repeat 0 32) (repeat 0 32) (repeat 0 32) (repeat 0 32) (repeat 0 32) (repeat 0 32) (repeat 0 32) (repeat 0 32) fl'
+                  ltac:(rewrite Hax; reflexivity) L32 L32 L32 L32) as [fu Hfu].
+      eexists. rewrite Hrun. rewrite Hfu. rewrite cnt_t_c. f_equal. f_equal. apply count_case; [exact Hc8|right; lia].
+    + destruct (wrap_plain_str r0 Hpop ltac:(lia)) as (ax' & cx' & fl' & Hax & Hrun).
+      destruct (body_plain c8 ax' cx' (r0 DX) (r0 DI) (r0 R9) (r0 R10) (r0 R11) (r0 R12) (r0 R13) (r0 R14) (r0 R15)
+                  (repeat 0 32) (repeat 0 32) (repeat 0 32) (repeat 0 32) (repeat 0 32) (repeat 0 32) (repeat 0 32) (repeat 0 32) fl'
+                  Hax L32 L32 L32 L32) as [fu Hfu].
+      eexists. rewrite Hrun. rewrite Hfu. rewrite cnt_t. f_equal. f_equal. apply count_plain; [exact Hc8|lia].
+Qed.
+
+(* without POPCNT the wrapper hands over to the Go fallback after two instructions, having loaded and stored nothing *)
+Theorem count_asm_str_nopopcnt r0 : popcnt = false -> run 3 entry_count_go122_amd64_CountString (init r0) = Delegated.
+Proof.
+  intros Hpop. unfold entry_count_go122_amd64_CountString, init.
+  ystep. replace (if popcnt then 1 else 0) with 0 by (rewrite Hpop; reflexivity).
+  ystep. rewrite holds_cmp_E. change (0 =? 1) with false. cbv iota.
+  ystep. reflexivity.
+Qed.
+
 End K.
